@@ -307,7 +307,7 @@ dgstrf (superlu_options_t *options, SuperMatrix *A,
 	    /* Determine the union of the row structure of the snode */
 	    if ( (*info = dsnode_dfs(jcol, kcol, asub, xa_begin, xa_end,
 				    xprune, marker, Glu)) != 0 )
-		return;
+		goto cleanup;
 
             nextu    = xusub[jcol];
 	    nextlu   = xlusup[jcol];
@@ -317,7 +317,7 @@ dgstrf (superlu_options_t *options, SuperMatrix *A,
 	    nzlumax = Glu->nzlumax;
 	    while ( new_next > nzlumax ) {
 		if ( (*info = dLUMemXpand(jcol, nextlu, LUSUP, &nzlumax, Glu)) )
-		    return;
+		    goto cleanup;
 	    }
     
 	    for (icol = jcol; icol<= kcol; icol++) {
@@ -373,17 +373,17 @@ dgstrf (superlu_options_t *options, SuperMatrix *A,
 
 	    	if ((*info = dcolumn_dfs(m, jj, perm_r, &nseg, &panel_lsub[k],
 					segrep, &repfnz[k], xprune, marker,
-					parent, xplore, Glu)) != 0) return;
+					parent, xplore, Glu)) != 0) goto cleanup;
 
 	      	/* Numeric updates */
 	    	if ((*info = dcolumn_bmod(jj, (nseg - nseg1), &dense[k],
 					 tempv, &segrep[nseg1], &repfnz[k],
-					 jcol, Glu, stat)) != 0) return;
+					 jcol, Glu, stat)) != 0) goto cleanup;
 		
 	        /* Copy the U-segments to ucol[*] */
 		if ((*info = dcopy_to_ucol(jj, nseg, segrep, &repfnz[k],
 					  perm_r, &dense[k], Glu)) != 0)
-		    return;
+		    goto cleanup;
 
 	    	if ( (*info = dpivotL(jj, diag_pivot_thresh, &usepr, perm_r,
 				      iperm_r, iperm_c, &pivrow, Glu, stat)) )
@@ -461,6 +461,14 @@ dgstrf (superlu_options_t *options, SuperMatrix *A,
     
     ops[FACT] += ops[TRSV] + ops[GEMV];	
     stat->expansions = --(Glu->num_expansions);
+
+ cleanup:
+    if ( *info > n ) { /* Out of memory: L and U are not formed. */
+	dLUWorkFree(iwork, dwork, Glu);
+	SUPERLU_FREE (xplore);
+	SUPERLU_FREE (xprune);
+	dLUMemFree(fact, Glu);
+    }
     
     if ( iperm_r_allocated ) SUPERLU_FREE (iperm_r);
     SUPERLU_FREE (iperm_c);
